@@ -121,6 +121,11 @@ def table(shape, nrows, fail=None):
         cols["x"] = list(xs)
     if shape == "both-rev":  # initial-value column first, parameter column second
         cols["k2"] = list(ks)
+    if shape == "par-int":  # whole numbers stored as integers (a table read from a file, range(...), ...)
+        cols["k2"] = [1, 2, 3, 4, 5, 6][:nrows]
+    if shape == "both-int":
+        cols["x"] = [1, 2, 3, 4, 5, 6][:nrows]
+        cols["k2"] = [2, 1, 3, 5, 4, 6][:nrows]
     if fail is not None:
         pos, mech = fail
         cols.setdefault("k2", list(ks))
@@ -439,6 +444,10 @@ def check(case):
 def generate(tier):
     cases = []
     seq_kinds = ["steady_state", "time_course", "protocol", "protocol_time_course"]
+    mc_kinds_early = ["mc.steady_state", "mc.time_course"]
+    for model, tbl, kind in it.product(("ia", "cons"), ("par-int", "both-int"), seq_kinds + mc_kinds_early):
+        for rows in (2, 3):
+            cases.append({"family": "seq", "model": model, "table": tbl, "kind": kind, "rows": rows, "read": list(range(rows)), "view_first": "variables"})
     for model, tbl, kind in it.product(("ma", "derived", "ia", "cons"), ("par", "init", "both", "both-rev"), seq_kinds):
         for rows in (1, 2, 3):
             for read in it.permutations(range(rows)):
